@@ -22,6 +22,7 @@ RULE = (
     "least one fault on an element that is followed by a shape outside its subtree; distinct by document + plan."
 )
 ASSUMPTIONS = [
+    'a style sheet may sit inside a container whose only faults are its own transform / nested-svg size, with no other fault inside and no use around: if that container is skipped (its shapes render in the intact document and none renders now) its rules must not apply outside; if it is read leniently and rendered, its rules are read too (document-wide effect of a sheet) and either reading is accepted',
     "faults are placed in attribute values only (not in style sheet text, whose effect is legitimately global)",
     "the offending element itself may be skipped or rendered up to the error; nothing is asserted about it or its subtree",
     "identical geometry = abs(Path(shape)) sampled pointwise at 1e-12 * scale (same code, same inputs on both sides)",
